@@ -11,9 +11,27 @@ pub fn oracle(case: &[u8], obs: &mut Obs) -> Result<(), String> {
     o.weights = [60, 25, 15];
     o.rich.max_gap = 32;
     let inp = inputs::gen_input(&mut c, &o);
-    let data = &inp.data;
-    let (chunks, intr) = stream::gen_reader_behaviour(&mut c, 1);
     let names: Vec<Vec<u8>> = inp.rich.as_ref().map(|r| r.dyn_names.clone()).unwrap_or_default();
+    check(&inp.data, inp.mode, &inp.note, &names, &mut c, obs)
+}
+
+/// raw mode: [n][n bytes driving reader behaviour and the op sequence][the ELF file]
+pub fn oracle_raw(case: &[u8], obs: &mut Obs) -> Result<(), String> {
+    let (args, data) = crate::c01::split_raw(case);
+    let mut c = Choice::new(args);
+    check(data, "raw_file", "", &[b"memset".to_vec(), b"use_memset".to_vec()], &mut c, obs)
+}
+
+fn check(data_in: &[u8], mode: &'static str, note: &str, names: &[Vec<u8>], c: &mut Choice, obs: &mut Obs) -> Result<(), String> {
+    let data = &data_in.to_vec();
+    let mut c = c.clone();
+    struct Inp<'a> {
+        mode: &'static str,
+        note: &'a str,
+    }
+    let inp = Inp { mode, note };
+    let (chunks, intr) = stream::gen_reader_behaviour(&mut c, 1);
+    let names: Vec<Vec<u8>> = names.to_vec();
     let e = AnyEndian::Little;
     let rb = open_as(e, data);
     let reader = Reader::with(data.clone(), chunks.clone(), intr, vec![]);
@@ -111,7 +129,7 @@ pub fn property() -> Property {
         level: "exploration",
         rule: "cases are (file bytes from the three input modes: rich generated files with overrides/corruption, mutated linker-produced samples, raw bytes) x (an operation sequence of 0..40 stream calls drawn with repetition from counts, section_data, section_data_as_strtab/rels/relas/notes, segment_data_as_notes, section names, section_header_by_name, symbol_table, dynamic_symbol_table, dynamic, symbol-version requirement/definition queries, on the file's own headers and on fabricated headers whose (start,end) come from a pool of five boundaries so that different ranges share a start or an end and recur) x (a reader delivering chunks of 1..n bytes and/or ErrorKind::Interrupted every n-th read). Oracle = the slice parser on the same bytes: open_stream Ok iff minimal_parse Ok; identical file header, every section header and every program header; each stream op is Ok whenever the slice op is Ok and then has an equal content digest; for section_data, both symbol tables, symbol-version queries and segment notes Ok/Err coincide exactly; after every op a randomly chosen earlier op is repeated and must answer as before. Out of scope exactly as the statement says (skipped, counted): ops on SHF_COMPRESSED sections and files whose section table is present but empty. Non-trivial: opened, >=3 ops, and two fabricated ranges sharing exactly one endpoint or a repeated range; distinct by (file, ops, reader) hash.",
         assumptions: &["digests compare content, not error kinds", "the stream's dynamic() legitimately skips the sh_entsize check: only slice Ok => stream Ok is required there"],
-        subs: vec![Sub::new("stream_diff", oracle, 3200, 800_000, 30_000_000).shrink(2000)],
-        extra: None,
+        subs: vec![Sub::new("stream_diff", oracle, 3200, 800_000, 30_000_000).shrink(2000), Sub::new("stream_diff_raw", oracle_raw, 600, 20_000, 200_000).shrink(2000)],
+        extras: vec![crate::fuzz::c07_campaign],
     }
 }
